@@ -117,7 +117,7 @@ UsageOK(u, tpl, tg) ==
          debit == RType(u, e.rg) = "debit" \/ (HasOnline(e) /\ tg \in {"final", "final_then_partial"})
      IN
      /\ (~HasOnline(e) => e.req = -1)
-     /\ (HasOnline(e) /\ e.req = -1 => debit)         \* reserve mode needs a requested unit
+     /\ (HasOnline(e) /\ e.req = -1 /\ DEV_NilRequestedUnitPanics => debit)  \* as-is: reserve mode needs a requested unit
      /\ (WellBehaved /\ HasOnline(e) =>
             /\ OnlineVol(e) <= LastGrant(u, e.rg).g      \* never uses more than it was granted
             /\ (debit => e.req = -1))                   \* told "final units": reports, does not ask again
